@@ -315,6 +315,11 @@ func (rd *HandlingDataManager) handleFlowsLoading() func(http.ResponseWriter, *h
 	return func(writer http.ResponseWriter, req *http.Request) {
 		switch req.Method {
 		case http.MethodPost:
+			// A reload reads the configuration files and replaces the running flows: it must not
+			// overlap a /configuration or /apply_flows request that is rewriting those files, nor
+			// another reload.
+			rd.handlingLock.Lock()
+			defer rd.handlingLock.Unlock()
 			if err := rd.reloadFlows(); err != nil {
 				handleError(writer, fmt.Sprintf("%v", err), http.StatusBadRequest, err)
 				return
@@ -498,6 +503,8 @@ func (rd *HandlingDataManager) handleFlowsValidation() func(http.ResponseWriter,
 	return func(writer http.ResponseWriter, req *http.Request) {
 		switch req.Method {
 		case http.MethodPost:
+			rd.handlingLock.Lock()
+			defer rd.handlingLock.Unlock()
 			if err := rd.processFlowsValidation(); err != nil {
 				handleError(writer, fmt.Sprintf("%v", err),
 					http.StatusUnprocessableEntity, err)
